@@ -98,6 +98,27 @@ CLAIMS = {
         note=NOTE_BASE,
         technique="static analysis: constructor-dominance/ownership rules + decision-tree extraction compared with a specification table",
     ),
+    "C09": dict(
+        category="other",
+        text="Static check that every deviation measure pairs its operands by logical index (undisturbed Zip producers, no layout API), "
+             "applies the documented guards/delegations, and accumulates exactly the definitional kernel: the closure's arithmetic is "
+             "extracted from MIR as a symbolic term and compared by a CAS with Σ(a−b)², Σ|a−b|, max|a−b| (running max from 0), +1 on a==b; "
+             "symmetry and zero-on-equal are proved on the extracted terms; derived measures are the documented functions of the "
+             "primitives. Exact for integers barring overflow; float roundoff is not decided.",
+        design_ref="DESIGN.md §4 C09",
+        note=NOTE_BASE + " sympy is trusted for polynomial/elementary identities.",
+        technique="static analysis: symbolic kernel-term extraction from MIR + CAS identity check; pairing/guard rules",
+    ),
+    "C10": dict(
+        category="other",
+        text="Static check of entropy/cross-entropy/KL: explicit `== 0 ⇒ 0` branch on the multiplicand dominating every ln (R10), kernel "
+             "terms extracted from MIR equal x·ln x, p·ln q, p·ln(q/p) (CAS), result is the negated plain sum, operands paired by logical "
+             "index in the documented order, guards per the decision table; identities KL(p,p)=0 and H(p,q)=H(p)+KL(p,q) proved termwise "
+             "on the extracted terms. Inequalities (KL ≥ 0, H ≤ ln n) and roundoff are not decided.",
+        design_ref="DESIGN.md §4 C10",
+        note=NOTE_BASE + " sympy is trusted for elementary identities (positive symbols).",
+        technique="static analysis: dominance rule + symbolic kernel-term extraction from MIR + CAS identity check",
+    ),
 }
 
 PENDING = "not yet claimed in this revision: the static rule set for it is still being implemented (see DESIGN.md §8); no check is registered rather than a weak one"
